@@ -455,7 +455,9 @@ class C05(Check):
             "direct sub-classes created through the real SpecSetMeta, each implementing a subset of the names by a generated "
             "datasource bound to one context / an at-least-one list of contexts / a helper datasource bound to context(s) / the "
             "same contexts as an earlier implementation that sits in its own dependency tree (optional or group member); "
-            "second-level classes; evaluations in the middle of the history; debug logging on in 25%; outcome "
+            "second-level classes; extended spec sets that re-declare registry points (implementing classes below them); a "
+            "scripted regime with a helper bound to another spec's registry point; evaluations in the middle of the history; "
+            "debug logging on in 25%; outcome "
             "per implementation in {value, skip, content error, failed command, crash}; one generated context active; driver in "
             "{dr.run with seeded tie-break, forced linear extension, run_incremental, run_all}; non-trivial = a spec with >= 2 "
             "implementations of which >= 1 is a candidate; distinct = digest of (event log, spec values)")
